@@ -49,7 +49,7 @@ def write_cfg(wd, name, req, tr, resp, dev, cdev, emit, mod, res, shape):
 
 
 # number of cases TLC enumerates within the bounds (measured; only used to size the replayed sample)
-ENUMERATED = {"quick": 318480, "thorough": 1224120}
+ENUMERATED = {"quick": 318696, "thorough": 2540000}
 # deviation switches of HeaderEdit.tla that are not findings: TLC must refute each (self-test of the property)
 SELF_TEST = ["ConnFieldToH2Backend", "ConnFieldToH2Client"]
 
@@ -132,7 +132,7 @@ def run(tier, replay=None):
     rep.cov["distinct_nontrivial"] = summ["distinct_token_lists"]
     rep.cov["exhaustive"] = False
     rep.cov["rule"] = ("TLC enumerates every case of HeaderEdit.tla within the bounds (request lists <= %d tokens of 26, "
-                       "trailer lists <= %d of 6, response lists <= %d of 12, x listener configuration x 4 peer classes x "
+                       "trailer lists <= %d of 7, response lists <= %d of 12, x listener configuration x 4 peer classes x "
                        "3 frontends x 2 backends, configuration bits that cannot interact coupled as documented in the "
                        "spec) and checks P_C13 on each; 1 case in %d (selected by a hash and VERIF_SEED) is replayed "
                        "through real workers. distinct_nontrivial = distinct (request list, trailer list, response "
@@ -142,7 +142,7 @@ def run(tier, replay=None):
                 "missing_last_chunk_before_trailers", "retried", "setup_s", "run_s"):
         rep.extra[key] = summ.get(key)
     rep.assumptions += [
-        "the header language is covered through a 44-token alphabet (every connection-specific field name of RFC 9113 8.2.2 / RFC 7540 3.2.1 in both directions, each spelled in 4 cases on HTTP/1.1 legs) with 2-4 concretisations per token (name case, values with commas/quotes, cookie crumbs packed or split); byte-level parser quirks that no token exercises are out of reach",
+        "the header language is covered through a 45-token alphabet (every connection-specific field name of RFC 9113 8.2.2 / RFC 7540 3.2.1 in both directions, each spelled in 4 cases on HTTP/1.1 legs) with 2-4 concretisations per token (name case, values with commas/quotes, cookie crumbs packed or split); byte-level parser quirks that no token exercises are out of reach",
         "addresses: 127.0.0.1 / ::1 direct peers and PROXY-v2 sources 203.0.113.7 / 2001:db8::7; the PROXY header is written in its own segment ahead of the first protocol byte",
         "request/response framing fields (host, content-length, transfer-encoding on HTTP/1.1 legs, pseudo-headers) belong to C03 and are not compared; a missing last-chunk line in front of converted HTTP/2 trailers is tolerated by the recording backend and counted",
         "the sticky Set-Cookie is optional in the relation: sozu does not announce it when a multiplexed backend connection is reused",
